@@ -42,7 +42,10 @@ def gen(rng, tier):
             k = G.span_of(kv, p, n, u); d['k'] = k
             out.append(Case('basisall', "basisall %d %s %d %s" % (p, U, k, fr(u)), d))
         elif r < .80:
-            i = rng.randint(0, n - 1); d['i'] = i
+            k0 = G.span_of(kv, p, n, u)
+            # mostly one of the basis functions that are active at u (incl. the last one at the domain end)
+            i = rng.randint(k0 - p, k0) if rng.random() < .7 else rng.randint(0, n - 1)
+            d['i'] = i
             out.append(Case('basisone', "basisone %d %s %d %s" % (p, U, i, fr(u)), d))
         else:
             k = G.span_of(kv, p, n, u); d['k'] = k; d['order'] = rng.randint(0, p)
@@ -57,8 +60,12 @@ def gen(rng, tier):
         r = rng.random()
         if r < .3:
             bad = bad[:-1]
-        elif r < .6 and len(bad) > 3:
+        elif r < .5 and len(bad) > 3:
             i = rng.randint(1, len(bad) - 2); bad[i], bad[i + 1] = bad[i + 1] + F(1, 3), bad[i]
+        elif r < .65:
+            bad[-1] = bad[-2] - F(1, 20)          # the only descent is at the very last knot
+        elif r < .75:
+            bad[0] = bad[1] + F(1, 20)            # … or at the very first
         out.append(Case('kvcheck', "kvcheck %d %s %d" % (p, show_list(bad), n2), dict(kv=bad, p=p, n=n2, orig=kv)))
         a = F(rng.randint(-3, 3)); b = a + F(rng.randint(1, 9), rng.choice([1, 2, 3])); m = rng.randint(1, 40)
         out.append(Case('linspace', "linspace %s %s %d" % (fr(a), fr(b), m), dict(a=a, b=b, m=m)))
@@ -130,7 +137,9 @@ def oracle(c):
             want = G.cox_de_boor(kv, p, ks - p + r, u, last)
             if N[r] != want:
                 return "basis_function[%d] = %s, Cox-de Boor recursion gives %s" % (r, fr(N[r]), fr(want))
-        if u < last:   # A2.4 / A2.5 use half-open spans throughout (except their own end special case)
+        # A2.4 uses half-open spans plus its own special case at the last knot; at an interior domain end
+        # (unclamped vectors) the half-open value equals the left limit by continuity
+        if u < last or kv[n] == kv[-1]:
             for i in range(n):
                 one = helpers.basis_function_one(p, U, i, uu)
                 want = G.cox_de_boor(kv, p, i, u, last)
